@@ -58,6 +58,9 @@ pub const CORE: [usize; 16] = [0, 1, 4, 6, 8, 9, 11, 12, 13, 17, 18, 19, 20, 21,
 pub const DEEP10: [usize; 10] = [0, 6, 8, 9, 11, 17, 18, 21, 22, 23];
 pub const DEEP8: [usize; 8] = [0, 6, 9, 11, 17, 18, 21, 22];
 pub const DEEP12: [usize; 12] = [0, 6, 8, 9, 11, 17, 18, 19, 20, 21, 22, 23];
+/// K5: the tokens that make the builder emit jumps - conditionals, else, && - with a prefix and an infix operator,
+/// groups and nested expressions
+pub const JUMP10: [usize; 10] = [0, 6, 9, 12, 13, 15, 17, 18, 19, 20];
 
 pub const ALPHABET: [&str; 41] = [
     "1", "a", "_", ":", ".", " ", "\t", "\n", "\r", "\"", "'", "\\", "@", "`", "$", "?", "!", "~", "<", ">", "=", "+", "-", "|", "&", "^", "#", "%", "*", "/", "(", ")", "{",
@@ -97,6 +100,8 @@ fn segs(tier: Tier, with_programs: bool) -> Vec<Seg> {
         Seg { name: "k2-len4", count: tier.pick(0, a * a * a * a) },
         Seg { name: "k3-scale", count: (families().len() * SCALES.len()) as u64 },
         Seg { name: "k4-len5", count: tier.pick(pow(10, 5) * 16, pow(12, 5) * 16) },
+        Seg { name: "k5-len5", count: pow(10, 5) * 16 },
+        Seg { name: "k5-len6", count: tier.pick(0, pow(10, 6) * 32) },
         Seg { name: "k4-len6", count: tier.pick(pow(8, 6) * 32, pow(10, 6) * 32) },
         Seg { name: "k4-len7", count: tier.pick(0, pow(8, 7) * 64) },
     ];
@@ -252,6 +257,14 @@ pub fn item(tier: Tier, with_programs: bool, mut idx: u64) -> Item {
             }
             "k4-len5" => {
                 let (t, d) = if tier == Tier::Quick { k1_text(5, idx, &DEEP10) } else { k1_text(5, idx, &DEEP12) };
+                Item::Text(t, d)
+            }
+            "k5-len5" => {
+                let (t, d) = k1_text(5, idx, &JUMP10);
+                Item::Text(t, d)
+            }
+            "k5-len6" => {
+                let (t, d) = k1_text(6, idx, &JUMP10);
                 Item::Text(t, d)
             }
             "k4-len6" => {
@@ -746,7 +759,7 @@ fn canonical_token(t: &LexerToken) -> Option<&'static str> {
 /// character-level one; keeps the same failure kind
 pub fn shrink_text(text: &str, classify: &dyn Fn(&str) -> Option<String>, kind: &str) -> String {
     let mut cur_text = text.to_string();
-    let mut budget = 400;
+    let mut budget = 600;
     'tok: loop {
         let toks = match lex_g(&cur_text) {
             Ok(t) => t,
@@ -767,6 +780,43 @@ pub fn shrink_text(text: &str, classify: &dyn Fn(&str) -> Option<String>, kind: 
             if classify(&s).as_deref() == Some(kind) {
                 cur_text = s;
                 continue 'tok;
+            }
+        }
+        // a contiguous run of tokens at once (an operand with its operator, a bracketed operand); short inputs only
+        if toks.len() <= 12 {
+            for len in 2..toks.len() {
+                for i in 0..=(toks.len() - len) {
+                    if budget == 0 {
+                        break 'tok;
+                    }
+                    budget -= 1;
+                    let mut cand = texts.clone();
+                    cand.drain(i..i + len);
+                    let s = cand.concat();
+                    if classify(&s).as_deref() == Some(kind) {
+                        cur_text = s;
+                        continue 'tok;
+                    }
+                }
+            }
+        }
+        // a contiguous run of tokens replaced by the canonical atom (`{}` -> `1`, `(1+1)` -> `1`)
+        if toks.len() <= 12 {
+            for len in 2..=toks.len() {
+                for i in 0..=(toks.len() - len) {
+                    if budget == 0 {
+                        break 'tok;
+                    }
+                    budget -= 1;
+                    let mut cand = texts.clone();
+                    cand.drain(i..i + len);
+                    cand.insert(i, "1".to_string());
+                    let s = cand.concat();
+                    if s.len() < cur_text.len() && classify(&s).as_deref() == Some(kind) {
+                        cur_text = s;
+                        continue 'tok;
+                    }
+                }
             }
         }
         // two tokens at once (a bracket pair, an operator with its operand); short inputs only
@@ -858,23 +908,23 @@ impl Property for C03 {
         "exploration"
     }
     fn size(&self, tier: Tier) -> u64 {
-        total(tier, false)
+        total(tier, true)
     }
     fn describe(&self, tier: Tier, idx: u64) -> String {
-        show(&item_text(&item(tier, false, idx)))
+        show(&item_text(&item(tier, true, idx)))
     }
     fn crash_is_violation(&self) -> bool {
         true
     }
     fn crash_signature(&self, tier: Tier, idx: u64, kind: &str) -> (String, String, Value) {
-        let text = item_text(&item(tier, false, idx));
+        let text = item_text(&item(tier, true, idx));
         (format!("{}-in-pipeline", kind), show(&text).chars().take(80).collect(), json!({"text": text, "idx": idx}))
     }
     fn budget_ms(&self) -> u64 {
         4000
     }
     fn run(&self, tier: Tier, idx: u64, cx: &mut Ctx) {
-        let it = item(tier, false, idx);
+        let it = item(tier, true, idx);
         let text = item_text(&it);
         cx.eval();
         let o = run_text(&text, false);
@@ -911,7 +961,7 @@ impl Property for C03 {
     }
     fn meta(&self, tier: Tier) -> Meta {
         Meta {
-            rule: format!("K1: every sequence of 32 token classes (one representative spelling each: values, prefix/suffix/binary operators, brackets, separators, apply-by-identifier forms, annotations) of length <= 3 with every choice of 'nothing or one space' between neighbours, length 4 over {}; K2: every string over a 41-symbol alphabet (one per lexer character class plus 2-, 2- and 4-byte characters) of length <= {}; K3: 40 scaling families at 64..1024 repetitions; K4 (small-scope tiers, every spacing choice as in K1): length 5 over {} classes, length 6 over {} classes{} drawn from number, prefix, suffix and infix operator, comma, blank line and the three bracket kinds. Each input goes through lex, parse, a structural tree check, then build into SimpleGarnishData and BasicGarnishData. Verdict: no stage panics, aborts, overflows the stack or exceeds its wall budget (supervisor-confirmed), parse never returns a result whose child links contain a cycle (build would not terminate on it - such a result is not handed to build; results with orphan, shared or out-of-range children are built under the panic guard), K3 time <= 50 ms + 3 us * n^2. Non-trivial = input that gets past lex; distinct by text.", tier.pick("a 16-class core", "all 32 classes"), tier.pick(3, 4), tier.pick(10, 12), tier.pick(8, 10), tier.pick("", ", length 7 over 8 classes,")),
+            rule: format!("K1: every sequence of 32 token classes (one representative spelling each: values, prefix/suffix/binary operators, brackets, separators, apply-by-identifier forms, annotations) of length <= 3 with every choice of 'nothing or one space' between neighbours, length 4 over {}; K2: every string over a 41-symbol alphabet (one per lexer character class plus 2-, 2- and 4-byte characters) of length <= {}; K3: 40 scaling families at 64..1024 repetitions; K4 (small-scope tiers, every spacing choice as in K1): length 5 over {} classes, length 6 over {} classes{} drawn from number, prefix, suffix and infix operator, comma, blank line and the three bracket kinds; K5: length 5{} over the 10 jump-making classes (number, prefix and infix operator, ?>, |>, &&, parentheses, braces); the well-formed programs of the C01 corpora. Each input goes through lex, parse, a structural tree check, then build into SimpleGarnishData and BasicGarnishData. Verdict: no stage panics, aborts, overflows the stack or exceeds its wall budget (supervisor-confirmed), parse never returns a result whose child links contain a cycle (build would not terminate on it - such a result is not handed to build; results with orphan, shared or out-of-range children are built under the panic guard), K3 time <= 50 ms + 3 us * n^2. Non-trivial = input that gets past lex; distinct by text.", tier.pick("a 16-class core", "all 32 classes"), tier.pick(3, 4), tier.pick(10, 12), tier.pick(8, 10), tier.pick("", ", length 7 over 8 classes,"), tier.pick("", " and 6")),
             assumptions: vec![
                 "a parse result whose child links contain a cycle is reported as a totality violation without executing build on it (build follows child links with a work stack and cannot terminate on a cycle)".into(),
                 "the polynomial-time clause is checked only as a blunt quadratic wall-clock bound on 40 repeat families; a change of exponent below that is not detected".into(),
